@@ -501,9 +501,14 @@ class Interp:
         k = fr.loop_ord[id(s)]
         c = fr.contract
         spec = c.loops.get(k) if c is not None else None
+        txt = ast.unparse(s.iter if isinstance(s, ast.For) else s.test)
+        if c is not None and (spec is None or (spec.iter_text is not None and spec.iter_text != txt)):
+            # loops whose contract does not depend on their position (frame-only invariants) are keyed by text
+            alt = getattr(c, "loops_by_text", {}).get(txt)
+            if alt is not None:
+                return k, alt
         if spec is None:
             raise Unsupported(f"{fr.target}: loop #{k} at line {s.lineno} iterates an abstract sequence and has no invariant")
-        txt = ast.unparse(s.iter if isinstance(s, ast.For) else s.test)
         if spec.iter_text is not None and spec.iter_text != txt:
             raise Unsupported(f"{fr.target}: loop #{k} now iterates `{txt}`, the contract was written for `{spec.iter_text}`")
         return k, spec
@@ -878,6 +883,8 @@ class Interp:
         if isinstance(a, (SObj, SList, SDict, SSet, SOpaque)) or isinstance(b, (SObj, SList, SDict, SSet, SOpaque)):
             if a is b:
                 return True
+            if getattr(a, "fresh", False) or getattr(b, "fresh", False):
+                return False   # a freshly allocated object is identical to nothing else
             if isinstance(a, SOpaque) and isinstance(b, SOpaque) and a.ident is not None and b.ident is not None:
                 return SBool(a.ident == b.ident)
             return False
@@ -934,6 +941,11 @@ class Interp:
             raise Unsupported(f"class attribute {obj.name}.{attr}")
         if isinstance(obj, SEnumMember) and attr == "value":
             return obj.value
+        if isinstance(obj, SEnumMember):
+            res = self.index.resolve_method(obj.enum, attr)
+            if res is not None:
+                kind, c2, fn = res
+                return SFunc("repo", f"{c2.module.rel}:{c2.name}.{attr}", self_obj=obj, node=fn, module=c2.module, cls=c2)
         if isinstance(obj, SExc):
             return SOpaque("excattr")
         if isinstance(obj, SFunc) and obj.kind == "builtin" and obj.self_obj is None:
@@ -1001,6 +1013,8 @@ class Interp:
     def ev_Call(self, e: ast.Call, fr: Frame):
         if self.is_dropped_call(e, fr):
             return None
+        if isinstance(e.func, ast.Name) and e.func.id == "cast" and len(e.args) == 2 and "cast" not in fr.locals:
+            return self.ev(e.args[1], fr)   # typing.cast: the type expression is not evaluated
         # super()
         if isinstance(e.func, ast.Name) and e.func.id == "super" and not e.args:
             return SFunc("super", "super", self_obj=fr.locals.get("self"), cls=fr.cls)
